@@ -52,7 +52,7 @@ fn families(quick: bool) -> Vec<LmFamily> {
             name: "F7q-half-bounded",
             n: 2,
             m: 1,
-            doms: vec![Dom::Real(f64::NEG_INFINITY, 2.0), Dom::Real(-1.0, f64::INFINITY), Dom::NonNegB(1.0, f64::INFINITY), Dom::NonNeg, Dom::Real(0.0, 3.0), Dom::Real(-2.0, 0.0), Dom::Int(0, 1), Dom::Int(-2, -1)],
+            doms: vec![Dom::Real(f64::NEG_INFINITY, 2.0), Dom::Real(-1.0, f64::INFINITY), Dom::NonNegB(1.0, f64::INFINITY), Dom::NonNeg, Dom::Real(0.0, 3.0), Dom::Real(-2.0, 0.0), Dom::Real(f64::NEG_INFINITY, -1.0), Dom::Real(1.0, f64::INFINITY), Dom::Int(0, 1), Dom::Int(-2, -1)],
             coefs: vec![-1.0, 0.0, 2.0],
             rhss: vec![-1.0, 2.0],
             rels: vec![Rel::Le, Rel::Ge, Rel::Eq],
@@ -291,6 +291,24 @@ pub fn specials() -> Vec<(&'static str, LmSpec)> {
             sense: Sense::Max,
         },
     ));
+    // every ordered choice (with repetition) of 4 rows from a menu with three proportional equalities,
+    // a fourth equality and two bounds: redundant rows in every position of a two-phase start
+    let menu: [(&[f64], Rel, f64); 6] = [(&[1.0, 1.0], Rel::Eq, 4.0), (&[2.0, 2.0], Rel::Eq, 8.0), (&[3.0, 3.0], Rel::Eq, 12.0), (&[1.0, -1.0], Rel::Eq, 0.0), (&[1.0, 0.0], Rel::Le, 3.0), (&[0.0, 1.0], Rel::Le, 3.0)];
+    let objs: [[f64; 2]; 4] = [[1.0, 0.0], [0.0, 1.0], [1.0, 1.0], [-1.0, 1.0]];
+    for code in 0..(6usize.pow(4) * 4 * 2) {
+        let mut c = code;
+        let sense = if c % 2 == 0 { Sense::Min } else { Sense::Max };
+        c /= 2;
+        let obj = objs[c % 4];
+        c /= 4;
+        let mut rows = vec![];
+        for k in 0..4 {
+            let (coef, rel, rhs) = menu[c % 6];
+            c /= 6;
+            rows.push(row(coef, rel, rhs, &format!("r{k}")));
+        }
+        v.push(("redundant-rows", LmSpec { vars: vars(2, Dom::NonNeg), rows, obj: obj.to_vec(), offset: 1.0, sense }));
+    }
     v
 }
 
